@@ -497,6 +497,15 @@ def {}():
         (u, w) = Q.pop()
         if verbose: print((u, w))
 
+        # u is ordered before (w < 0) / after (w > 0) the method these
+        # blocks call. If u is the actual method of a top level callee
+        # port, the open-loop scheduler has to order the port's slot
+        # against the blocks as well.
+        if w != 0 and u in method_is_top_level_callee:
+          for blk in assoc_blks:
+            if w < 0: top._dag.top_level_callee_constraints.add( (u, blk) )
+            else:     top._dag.top_level_callee_constraints.add( (blk, u) )
+
         if u in equiv:
           for v in equiv[u]:
             if (v, w) not in visited:
